@@ -299,6 +299,8 @@ def generate(run_seed, deep=False):
             if k in evaluated and rec["seed"] is not None and rec["seed"] != "default" and sc.random() < 0.2 and \
                     rec["api"] in ("nd.sample", "gen.intervention_targets") + LAYOUT_FREE:
                 rec["posseed"] = True                          # the same call with the seed passed positionally
+            if k in evaluated and rec.get("m") and rec["api"] != "lganm.new" and sc.random() < 0.12:
+                rec["m"]["via"] = sc.choice(["deepcopy", "pickle"])      # the same call on an equal copy of the model
             if cfg.get("bursts") and sc.random() < 0.15 and rec.get("args", {}).get("n", 1) <= 40 and \
                     rec.get("args", {}).get("p", 1) <= 20 and not cfg.get("huge"):
                 rec["burst"] = sc.choice([12, 130, 260, 1030])
@@ -369,7 +371,7 @@ def sigkey(rec):
                 v = rec.get("args", {}).get(kind)
                 if isinstance(v, list) and any(spec[0] == "failing" for _, spec in v):
                     return None
-        m = {"type": m["type"], "spec": sp}
+        m = {"type": m["type"], "spec": sp}          # neither the shared id nor the way the object was obtained
     return jkey({"api": rec["api"], "m": m, "args": canonical_args(rec["api"], rec.get("args")), "seed": rec["seed"]})
 
 
@@ -422,7 +424,7 @@ def literal(rec):
     r = {k: v for k, v in rec.items() if k not in ("c", "sig", "on_shared", "relayout", "reordered", "posseed",
                                                    "burst")}
     if "m" in r:
-        r["m"] = dict(r["m"], id=None)
+        r["m"] = {k: v for k, v in dict(r["m"], id=None).items() if k != "via"}
     return r
 
 
@@ -447,6 +449,9 @@ def variant(rec):
 def same_call(a, b):
     ka = {k: v for k, v in a.items() if k not in ("c", "posseed", "burst")}
     kb = {k: v for k, v in b.items() if k not in ("c", "posseed", "burst")}
+    if "m" in ka and "m" in kb:
+        ka["m"] = {k: v for k, v in ka["m"].items() if k != "via"}
+        kb["m"] = {k: v for k, v in kb["m"].items() if k != "via"}
     return ka == kb
 
 
@@ -705,7 +710,8 @@ REQUIRED_PROBES = ["pair.nontrivial", "pair.seed0", "pair.sep.reseed", "pair.sep
                    "pair.sep.intervened_call_on_shared_model", "pair.different_clients", "pair.numpy_integer_seed", "pair.sep.failed_call_on_same_model",
                    "pair.seed>=2**32", "pair.sep.caller_scribbled_on_a_returned_object",
                    "pair.seed_sequence_object_reused", "pair.other_memory_layout", "pair.other_dict_insertion_order",
-                   "pair.seed_passed_positionally", "burst.seeded_calls"] + \
+                   "pair.seed_passed_positionally", "burst.seeded_calls", "model.used_through_a_deepcopy",
+                   "model.used_through_a_pickle"] + \
                   ["api:" + a for a in APIS] + ["noise:" + n for n in G.NOISE_FACTORIES] + \
                   ["nd:" + a for a in SAMPLERS] + ["nd.on_model_with_seeded_history", "nd:gen.dag_full",
                                                      "nd:gen.dag_avg_deg", "pair.default_seed_argument_omitted"]
